@@ -9,8 +9,8 @@ CONSTANTS
   ForeignAt = "none"
   RenderFails = TRUE
   CacheMisses = FALSE
-  VerBumps = TRUE
-  Forges = TRUE
+  VerBumps = FALSE
+  Forges = FALSE
   FailKinds = {}
 VIEW view
 ACTION_CONSTRAINT Emit
